@@ -173,6 +173,57 @@ def _single_straight_use(fn, p: str) -> bool:
     return not inside((ast.For, ast.While, ast.AsyncFor, ast.ListComp, ast.SetComp, ast.DictComp, ast.GeneratorExp, ast.Lambda, ast.FunctionDef, ast.AsyncFunctionDef))
 
 
+def _fuse_copies(block: list) -> list:
+    """`t1 = E1; t2 = E2; x = t1; y = t2` (or `x, y = t1, t2`), each temporary read only there  ->  `x = E1; y = E2`.
+    The expressions keep their order of evaluation; E_j must not mention an x_i that is now assigned before it."""
+    for st in block:
+        for fld in ("body", "orelse", "finalbody"):
+            b = getattr(st, fld, None)
+            if isinstance(b, list) and b and isinstance(b[0], ast.stmt) and not isinstance(st, (ast.FunctionDef, ast.AsyncFunctionDef, ast.ClassDef)):
+                setattr(st, fld, _fuse_copies(b))
+        for h in getattr(st, "handlers", []) or []:
+            h.body = _fuse_copies(h.body)
+    out = list(block)
+    changed = True
+    while changed:
+        changed = False
+        for k, st in enumerate(out):
+            # the copy statement(s)
+            pairs = None
+            if isinstance(st, ast.Assign) and len(st.targets) == 1:
+                t, v = st.targets[0], st.value
+                if isinstance(t, ast.Name) and isinstance(v, ast.Name):
+                    pairs = [(t, v)]
+                elif isinstance(t, ast.Tuple) and isinstance(v, ast.Tuple) and len(t.elts) == len(v.elts) and all(isinstance(a, ast.Name) for a in t.elts) and all(isinstance(b, ast.Name) for b in v.elts):
+                    pairs = list(zip(t.elts, v.elts))
+            if not pairs:
+                continue
+            temps = [v.id for _t, v in pairs]
+            if len(set(temps)) != len(temps) or not all("__i" in n or n.startswith("__v") for n in temps):
+                continue
+            n_ = len(pairs)
+            if k < n_:
+                continue
+            defs = out[k - n_:k]
+            if not all(isinstance(d, ast.Assign) and len(d.targets) == 1 and isinstance(d.targets[0], ast.Name) and d.targets[0].id == temps[i] for i, d in enumerate(defs)):
+                continue
+            everything = ast.Module(body=out, type_ignores=[])
+            if any(sum(1 for x in ast.walk(everything) if isinstance(x, ast.Name) and x.id == tn) != 2 for tn in temps):
+                continue
+            xs = [t.id for t, _v in pairs]
+            ok = True
+            for j, d in enumerate(defs):
+                if {x.id for x in ast.walk(d.value) if isinstance(x, ast.Name)} & set(xs[:j]):
+                    ok = False
+            if not ok:
+                continue
+            fused = [ast.copy_location(ast.Assign(targets=[ast.Name(id=xs[i], ctx=ast.Store())], value=defs[i].value), st) for i in range(n_)]
+            out[k - n_:k + 1] = fused
+            changed = True
+            break
+    return out
+
+
 class _Subst(ast.NodeTransformer):
     def __init__(self, mapping: dict[str, ast.AST]):
         self.mapping = mapping
@@ -231,7 +282,7 @@ class Inliner:
         decos = [ast.unparse(d) for d in fn.decorator_list]
         if any(d != "staticmethod" for d in decos):
             why = "decorated"
-        elif a.vararg or a.kwarg:
+        elif a.vararg or (a.kwarg and not self._kwarg_only_forwarded(fn)):
             why = "*args / **kwargs"
         elif any(isinstance(n, (ast.Yield, ast.YieldFrom, ast.Await)) for n in _own_nodes(fn)):
             why = "generator"
@@ -247,6 +298,14 @@ class Inliner:
             self.refused[q] = why
             return False
         return True
+
+    @staticmethod
+    def _kwarg_only_forwarded(fn) -> bool:
+        """**options of the helper is read nowhere but as `f(..., **options)`"""
+        kw = fn.args.kwarg.arg
+        uses = [n for n in ast.walk(fn) if isinstance(n, ast.Name) and n.id == kw]
+        fwd = [k.value for c in ast.walk(fn) if isinstance(c, ast.Call) for k in c.keywords if k.arg is None and isinstance(k.value, ast.Name) and k.value.id == kw]
+        return bool(uses) and len(uses) == len(fwd) and all(any(u is f for f in fwd) for u in uses)
 
     def _callee(self, call: ast.Call, host_cls: str | None):
         """(function node, class name or None, bound-self expression or None) of a call that can be expanded"""
@@ -286,9 +345,15 @@ class Inliner:
             return None
         for p, v in zip(params, call.args):
             given[p] = v
+        extra = []  # keywords that go to **options of the helper
         for k in call.keywords:
-            if k.arg in given or k.arg not in pos + kwonly:
+            if k.arg in given:
                 return None
+            if k.arg not in pos + kwonly:
+                if a.kwarg is None:
+                    return None
+                extra.append(k)
+                continue
             given[k.arg] = k.value
         defaults = dict(zip(pos[len(pos) - len(a.defaults):], a.defaults))
         for p, d in zip(kwonly, a.kw_defaults):
@@ -327,6 +392,18 @@ class Inliner:
         body = [copy.deepcopy(st) for st in fn.body]
         if body and isinstance(body[0], ast.Expr) and isinstance(body[0].value, ast.Constant) and isinstance(body[0].value.value, str):
             body = body[1:]
+        if a.kwarg is not None:
+            kwname = a.kwarg.arg
+            if not all(_simple(k.value) or _pure(k.value) for k in extra):
+                return None
+            for c in [c for st in body for c in ast.walk(st) if isinstance(c, ast.Call)]:
+                new_kws = []
+                for k in c.keywords:
+                    if k.arg is None and isinstance(k.value, ast.Name) and k.value.id == kwname:
+                        new_kws.extend(ast.keyword(arg=e.arg, value=copy.deepcopy(e.value)) for e in extra)
+                    else:
+                        new_kws.append(k)
+                c.keywords = new_kws
         sub = _Subst(mapping)
         body = [sub.visit(st) for st in body]
         _ = helper_names
@@ -456,7 +533,7 @@ class Inliner:
                                     if kind == "annassign":
                                         return [ast.copy_location(ast.AnnAssign(target=copy.deepcopy(st.target), annotation=st.annotation, value=v, simple=st.simple), st)]
                                     return [ast.copy_location(ast.AugAssign(target=copy.deepcopy(st.target), op=st.op, value=v), st)]
-                                new = prologue + self._convert(body, make_exit)
+                                new = _fuse_copies(prologue + self._convert(body, make_exit))
                             self.expanded[q] = self.expanded.get(q, 0) + 1
                             # the expanded code stands at the call site: positions in the host stay monotone (rules compare line numbers)
                             for s_ in new:
